@@ -1,7 +1,7 @@
 """C09 Single-block AES-128 equals FIPS-197 for every key/block; decryption inverts it."""
 from . import aes_rules
 LEVEL = 'proof'
-RULES = ('R09.a', 'R09.k', 'R09.e', 'R09.d', 'R09.t', 'R09.o', 'R02.d', 'R03.c')
+RULES = ('R09.a', 'R09.k', 'R09.e', 'R09.d', 'R09.t', 'R09.o', 'R09.m', 'R02.d', 'R03.c')
 
 
 def run(prog, rec, tier):
@@ -10,6 +10,8 @@ def run(prog, rec, tier):
     A.key_schedule()
     A.block('enc')
     A.block('dec')
+    A.stateless('enc')
+    A.stateless('dec')
     A.key_load()
     A.ownership()
     # the block functions work in per-object scratch: the claim holds for an object only while one thread at a time uses it.
